@@ -300,6 +300,9 @@ func checkC07(r *vt.Run) {
 		worlds = append(worlds, c07World{N: 3, Kind: k, Manager: "h2", W: 1})
 	}
 	worlds = append(worlds, c07World{N: 3, Kind: "to2", Tail: true, Manager: "h1", W: 1})
+	// the smallest cluster: after the promotion there is no replica left (both thorough-tier findings so
+	// far - repo fix c9f2962 and seeded/C07-d - show only here)
+	worlds = append(worlds, c07World{N: 2, Kind: "auto-dead", Manager: "h2", W: 1})
 	if r.Thorough() {
 		for _, k := range []string{"to2", "from1", "auto-dead", "forced"} {
 			worlds = append(worlds, c07World{N: 2, Kind: k, Manager: "h2", W: 1}, c07World{N: 4, Kind: k, Manager: "h2", W: 2},
